@@ -180,7 +180,12 @@ func FuncKey(f *ssa.Function) string {
 		}
 	}
 	if f.Parent() != nil {
-		return FuncKey(f.Parent()) + "$" + f.Name()
+		// function literal: go/ssa names it parent$n; the key is the parent's key with that name in place of the parent's
+		pk := FuncKey(f.Parent())
+		if i := strings.LastIndex(pk, "."); i >= 0 {
+			return pk[:i+1] + f.Name()
+		}
+		return pk + "$" + f.Name()
 	}
 	name := f.Name()
 	if i := strings.Index(name, "["); i > 0 {
